@@ -19,6 +19,21 @@ def cases(ctx):
         if name.startswith("github") and ctx.tier != "thorough": continue
         for st in sts[: (3 if ctx.tier == "thorough" else 2)]:
             out.append(("fixture:" + name, {"settings": st, "calls": [{"root": doc}]}))
+    # one external-crate construct per document, so that a `uses_` flag that is not set cannot be masked by another
+    # construct of the same document setting it (every string format of the regenerated table T2 included)
+    singles = {"pattern": {"type": "string", "pattern": "^[a-z]+$"}, "pattern_len": {"type": "string", "pattern": "^x-", "maxLength": 9},
+               "fmt_pattern": {"type": "string", "format": "hostname", "pattern": "^[a-z]+$"}, "fmt_len": {"type": "string", "format": "email", "maxLength": 64},
+               "key_pattern": {"type": "object", "additionalProperties": {"type": "integer"}, "propertyNames": {"pattern": "^[a-z]+$"}},
+               "pat_props": {"type": "object", "patternProperties": {"^x-": {"type": "string"}}, "additionalProperties": False},
+               "any": {}, "any_map": {"type": "object", "additionalProperties": True}, "any_vec": {"type": "array", "items": {}},
+               "enum_typed": {"type": "integer", "enum": [1, 2, 3]}, "deny": {"type": "string", "not": {"enum": ["x"]}},
+               "default_obj": {"type": "object", "properties": {"m": {"type": "object", "additionalProperties": {"type": "string"}, "default": {"a": "b"}}}},
+               "default_any": {"type": "object", "properties": {"v": {"default": {"k": [1, None]}}}}}
+    for f, _, _ in vlib.string_formats_table()[0]:
+        singles["format_" + f] = {"type": "string", "format": f}
+        singles["format_opt_" + f] = {"type": "object", "properties": {"o": {"type": ["string", "null"], "format": f}}}
+    for nm, sch in sorted(singles.items()):
+        out.append(("single:" + nm, {"settings": sts[len(nm) % 2], "calls": [{"root": {"definitions": {"Only": sch}}}]}))
     n = 300 if ctx.tier == "thorough" else 50
     for k in range(n):
         feats = set(gen.FEATURE_SETS["defaults" if k % 3 == 0 else "default"]) | ({"string_formats"} if k % 5 == 0 else set())
